@@ -244,6 +244,29 @@ def st_long_api(ctx, label="long-api"):
         out.append(case("cksum ins:%s:%s;ins:%s:%s;text;iter;rt" % (hx("sha512"), nb, hx(x), nb[:8]), "long"))
     return out
 
+def st_huge(ctx, label="huge"):
+    """inputs of 64 KiB (thorough: also 1 MiB) built from one repeated unit in every position — run on the
+    implementation only (`nomodel`: the list-based model is not meant for megabyte inputs); what is decided on them
+    is C06: an answer comes back (no panic, abort, stack overflow, hang)"""
+    out = []
+    sizes = [65536] if ctx.tier == "quick" else [65536, 1048576]
+    units = ["a", "/", "%41", "%2F", "%2f", "é", "%C3%A9", "%80", ".", "./", "../", "@", "#", "?", "&", "=", ":", ",", "a,", "a:00,",
+             "%", "A", "-_.", " "]
+    for n in sizes:
+        for u in units:
+            body = (u * (n // len(u) + 1))[:n]
+            for s in ("pkg:t/" + body, "pkg:t/" + body + "/n", "pkg:t/n@" + body, "pkg:t/n?k=" + body, "pkg:t/n#" + body,
+                      "pkg:" + body, "pkg:pypi/" + body, "pkg:nuget/" + body, "pkg:t/n?checksum=" + body, "pkg:t/n?" + body, body):
+                out.append(case("parsel %s %s" % ("P" if "pypi" in s or "nuget" in s else "S", hx(s)), "huge", s=s[:40] + "…", shape="S", nomodel=True))
+        # many distinct qualifiers (sorted insertion), many checksum entries
+        k = 4000 if n == 65536 else 20000
+        out.append(case("parsel S " + hx("pkg:t/n?" + "&".join("k%d=v" % i for i in range(k))), "huge", s="many-quals", shape="S", nomodel=True))
+        out.append(case("parsel S " + hx("pkg:t/n?" + "&".join("k%d=v" % i for i in reversed(range(k)))), "huge", s="many-quals-rev", shape="S", nomodel=True))
+        out.append(case("parsel S " + hx("pkg:t/n?checksum=" + ",".join("a%d:00" % i for i in range(k))), "huge", s="many-cksum", shape="S", nomodel=True))
+        out.append(case("parsel S " + hx("pkg:t/" + "/".join("s%d" % i for i in range(k)) + "/n#" + "/".join("s%d" % i for i in range(k))), "huge", s="many-segs", shape="S", nomodel=True))
+    return out
+
+
 # ---------------------------------------------------------------- builder scripts
 
 VALUE_UNIVERSE = ["", "a", "A", "a/b", "...", "a/.../b", "..../x", "x/.....", "/", "//a//", "a/./b/../c", "..", ".", "x y", "a&b=c", "a%2Fb", "%", "@1", "?q#f", "é", "ǅ",
